@@ -14,12 +14,12 @@ import itertools
 import re
 from . import guards
 
-UNRESOLVED = re.compile(r"(?<![\w$])(?:[slmev]_[0-9a-f]{7}|c\d_\d+\w*)\b|~|\bphi\(|\bOPQ\(|\bmatch\(|\|\.\.\||\?")
+UNRESOLVED = re.compile(r"(?<![\w$~])(?:[slmev]_[0-9a-f]{7}|c\d_\d+\w*)\b|~|\bphi\(|\bOPQ\(|\bmatch\(|\|\.\.\||\?")
 IDENT_CALL = re.compile(r"([A-Za-z_][A-Za-z0-9_]*(?:::[A-Za-z_][A-Za-z0-9_]*)*)\(")
 # predicate / constructor names of the atom language itself and of std methods the extractors interpret
 BUILTIN = {"GE", "GT", "GT2", "LE", "LT", "EQ", "EQ2", "NE", "IN", "HAS", "STARTS_WITH", "ENDS_WITH", "ALL", "ANY",
            "SOME", "OK", "CALLOK", "PARSES", "P", "OPQ", "LOOPOK", "LOOPEXIT", "LOOPO", "val", "len", "fmt", "new",
-           "if", "abs", "Some", "Ok", "Err", "None", "IF", "FOR", "ELSE", "not", "and", "or"}
+           "if", "abs", "Some", "Ok", "Err", "None", "cat", "loop", "IF", "FOR", "ELSE", "not", "and", "or"}
 
 
 # deterministic std methods: `f(x)` with such an f is a definite function of x, not a possible re-spelling of an
@@ -28,7 +28,7 @@ STD = set("""len is_empty chars bytes lines split splitn rsplit split_once rspli
 rfind contains starts_with ends_with strip_prefix strip_suffix trim trim_start trim_end trim_matches
 trim_start_matches trim_end_matches to_uppercase to_lowercase to_ascii_uppercase to_ascii_lowercase to_string
 to_owned as_str as_ref as_deref clone cloned copied parse get first last nth next peek iter into_iter enumerate skip
-take rev zip chain map filter filter_map flat_map flatten any all count sum min max position rposition find_map fold
+take rev zip chain once repeat_with successors map filter filter_map flat_map flatten any all count sum min max position rposition find_map fold
 collect unwrap unwrap_or unwrap_or_default unwrap_or_else expect ok err ok_or ok_or_else and_then or_else is_some
 is_none is_ok is_err is_some_and is_none_or map_or map_or_else abs round floor ceil trunc fract powi powf sqrt
 is_nan is_finite is_infinite to_digit is_ascii_digit is_ascii_alphabetic is_ascii_alphanumeric is_ascii_uppercase
@@ -99,6 +99,27 @@ def definite_difference(f, g, vocab, limit=16):
     # an opaque atom that occurs on both sides is the same (uninterpreted) condition on both sides: an ordinary
     # atom. Only opaque atoms private to one side can be another spelling of something on the other side.
     opq = {a for a in allA if opaque(a, vocab) and not (a in Af and a in Ag)}
+    # a private opaque atom on one side that is, token for token, a private opaque atom of the other side except
+    # for resolved text (the unresolved parts are literally the same) is not a possible re-spelling of it: the two
+    # are distinct conditions
+    import difflib
+    pa_ = [a for a in opq if a in Af]
+    pb_ = [a for a in opq if a in Ag]
+    while pa_ and pb_:
+        best = None
+        for x in pa_:
+            for y in pb_:
+                rt = difflib.SequenceMatcher(a=x, b=y, autojunk=False).quick_ratio()
+                if best is None or rt > best[0]:
+                    best = (rt, x, y)
+        if best is None or best[0] < 0.6:
+            break
+        _, x, y = best
+        pa_.remove(x)
+        pb_.remove(y)
+        if texts_definitely_differ(x, y, vocab):
+            opq.discard(x)
+            opq.discard(y)
     clear = [a for a in allA if a not in opq]
     if len(clear) > limit:
         # keep the atoms that differ plus as many shared ones as fit; the rest become unknown
@@ -119,3 +140,138 @@ def definite_difference(f, g, vocab, limit=16):
     if opq:
         return "undecided", sorted(opq)[:4]
     return "same", None
+
+
+_TOK = re.compile(r"'(?:[^'\\]|\\.)*'|[A-Za-z_$~@][\w:$~@]*|\d+(?:\.\d+)?|\S")
+
+
+def differing_tokens(a, b):
+    """tokens of a not matched in b and the other way round (longest common subsequence alignment)"""
+    import difflib
+    ta, tb = _TOK.findall(a), _TOK.findall(b)
+    sm = difflib.SequenceMatcher(a=ta, b=tb, autojunk=False)
+    da, db = [], []
+    for op, i1, i2, j1, j2 in sm.get_opcodes():
+        if op != "equal":
+            da.extend(ta[i1:i2])
+            db.extend(tb[j1:j2])
+    return da, db
+
+
+def _match_close(t, i, open_ch, close_ch):
+    d = 0
+    q = None
+    for k in range(i, len(t)):
+        ch = t[k]
+        if q:
+            if ch == q and t[k - 1] != "\\":
+                q = None
+            continue
+        if ch == "'":
+            q = ch
+        elif ch == open_ch:
+            d += 1
+        elif ch == close_ch:
+            d -= 1
+            if d == 0:
+                return k
+    return -1
+
+
+def _split_if(t):
+    """('if', cond, then, else) for `if(c){a}{b}` covering the whole text, else None"""
+    if not t.startswith("if("):
+        return None
+    e = _match_close(t, 2, "(", ")")
+    if e < 0 or e + 1 >= len(t) or t[e + 1] != "{":
+        return None
+    e2 = _match_close(t, e + 1, "{", "}")
+    if e2 < 0 or e2 + 1 >= len(t) or t[e2 + 1] != "{":
+        return None
+    e3 = _match_close(t, e2 + 1, "{", "}")
+    if e3 != len(t) - 1:
+        return None
+    return ("if", t[3:e], t[e + 2:e2], t[e2 + 2:e3])
+
+
+def leaf_differences(a, b, out):
+    """pairs of differing sub-texts after descending through identical `if(c){..}{..}` and `(..)` structure"""
+    if a == b:
+        return
+    for pre in ("V:",):
+        if a.startswith(pre) and b.startswith(pre):
+            a, b = a[len(pre):], b[len(pre):]
+    sa, sb = _split_if(a), _split_if(b)
+    if sa and sb and sa[1] == sb[1]:
+        leaf_differences(sa[2], sb[2], out)
+        leaf_differences(sa[3], sb[3], out)
+        return
+    if a.startswith("(") and b.startswith("(") and _match_close(a, 0, "(", ")") == len(a) - 1 \
+            and _match_close(b, 0, "(", ")") == len(b) - 1:
+        leaf_differences(a[1:-1], b[1:-1], out)
+        return
+    pa_, pb_ = _split_commas(a), _split_commas(b)
+    if len(pa_) == len(pb_) and len(pa_) > 1:
+        for x, y in zip(pa_, pb_):
+            leaf_differences(x, y, out)
+        return
+    out.append((a, b))
+
+
+def _split_commas(t):
+    out, cur, d, q = [], "", 0, None
+    for i, ch in enumerate(t):
+        if q:
+            cur += ch
+            if ch == q and t[i - 1] != "\\":
+                q = None
+            continue
+        if ch == "'":
+            q = ch
+        elif ch in "([{":
+            d += 1
+        elif ch in ")]}":
+            d -= 1
+        if ch == "," and d == 0:
+            out.append(cur)
+            cur = ""
+        else:
+            cur += ch
+    out.append(cur)
+    return out
+
+
+def texts_definitely_differ(a, b, vocab):
+    """two renderings of one value differ, and everything in which they differ is resolved"""
+    if a == b:
+        return False
+    pairs = []
+    leaf_differences(a, b, pairs)
+    if pairs and not (len(pairs) == 1 and pairs[0] == (a, b)):
+        return all(_leaf_differs(x, y, vocab) for x, y in pairs)
+    return _leaf_differs(a, b, vocab)
+
+
+def _leaf_differs(a, b, vocab):
+    if a == b:
+        return False
+    da, db = differing_tokens(a, b)
+    if not da and not db:
+        return False
+    chunk = " ".join(da + db)
+    # a differing identifier directly followed by "(" in its text is a call; judge the names
+    # a large rewrite is a restructuring, not an edit: nothing definite can be read off a long token difference;
+    # neither off one that only moves the same tokens around (re-association, reordered operands)
+    if len(da) > 30 or len(db) > 30:
+        return False
+    if sorted(x for x in da if x not in "()[]{},") == sorted(x for x in db if x not in "()[]{},"):
+        return False
+    for t in da + db:
+        if UNRESOLVED.search(t) or t == "phi" or re.match(r"^~\d*$", t) or t.startswith("@"):
+            return False
+        if re.match(r"^[A-Z][A-Z0-9_]{2,}$", t) and t not in BUILTIN and not t.startswith("IS_"):
+            return False           # a constant referred to by name: its value is not in the text
+        if re.match(r"^[A-Za-z_][\w:]*$", t) and not t.isupper() and t not in vocab and \
+                t.rsplit("::", 1)[-1] not in vocab and re.search(re.escape(t) + r"\(", a + " " + b):
+            return False
+    return True
